@@ -134,6 +134,16 @@ CHECKS = {
             "The harness builds the encoder's input snapshots the way the source tracer does (stated in the evidence); that derivation is covered "
             "end to end by C09. One known finding: field-width wrap (C10-field-width-wrap).",
             "bounded exhaustive enumeration + property-based testing (rapid): encode/decode round-trip and checksum rejection", "DESIGN.md §5 C10"),
+    "C09": ("exploration",
+            "System-level property-based testing over real loopback sockets: a real rpc.Server, rpc.Client and NetworkMachine connected through a "
+            "harness-owned TCP proxy; generated source schema, interleaved local and client-issued mutations, sync configuration (schema/no schema, "
+            "allowed/skipped lists, shallow clocks, per-mutation sync, push interval 0/2/20 ms) and fault script (connection cut + reconnect, "
+            "injected mirror drift, a mutation reply held after the export lock is released until a push went out - verif schedule points). At "
+            "logical quiescence the mirror must equal the source on every synchronised state; client-issued mutations must return the source's "
+            "result with the effect visible locally; a call blocked for 10 s is reported with the goroutine stacks.",
+            "Quiescence not reached in 4 s is inconclusive. An injected drift that is never detected (8-bit checksum collision with a lagging "
+            "queue tick, or no later update) is counted and not asserted, as the statement speaks of detected drift. Low case counts (real sockets).",
+            "model-free system-level property-based testing (rapid) with fault injection and harness-owned schedule points", "DESIGN.md §5 C09"),
 }
 
 NOT_YET = "check not built yet in this session (planned, see DESIGN.md §9)"
